@@ -76,15 +76,19 @@ func sockRecvFn(_ context.Context, mod api.Module, params []uint64) sys.Errno {
 		// Each record in riData is of the form:
 		// type iovec struct { buf *uint8; bufLen uint32 }
 		// This means that the first `uint32` is a `buf *uint8`.
-		firstIovecBufAddr, ok := mem.ReadUint32Le(riData)
+		if riDataCount == 0 {
+			// No iovec, so there is no buffer to peek into.
+			mem.WriteUint32Le(resultRoDatalen, 0)
+			mem.WriteUint16Le(resultRoFlags, 0)
+			return 0
+		}
+		// Read the first iovec in one access: riData+4 cannot wrap.
+		firstIovec, ok := mem.Read(riData, 8)
 		if !ok {
 			return sys.EINVAL
 		}
-		// Read bufLen
-		firstIovecBufLen, ok := mem.ReadUint32Le(riData + 4)
-		if !ok {
-			return sys.EINVAL
-		}
+		firstIovecBufAddr := le.Uint32(firstIovec)
+		firstIovecBufLen := le.Uint32(firstIovec[4:])
 		firstIovecBuf, ok := mem.Read(firstIovecBufAddr, firstIovecBufLen)
 		if !ok {
 			return sys.EINVAL
